@@ -16,7 +16,7 @@ def run(ctx):
                          "Validate(example text) must succeed; and every single-rule corruption (the example of one node replaced by a value violating one of its rules, or the item count "
                          "changed): Check must fail at the offset of that value; non-trivial = schema with a container and at least two rules")
     ctx.assumptions += ["Coq part: C04_self_valid on the rule-free fragment (Shape model) and the exact numeric rule semantics of C10; rule semantics of the other rules are checked through the API only"]
-    n = 2000 if quick else 40000
+    n = 6000 if quick else 40000
     base, planted = [], []
     for _ in range(n):
         w = J.rand_rule_schema(rng, rng.randint(0, 4))
@@ -83,7 +83,7 @@ def run(ctx):
             got = "accept" if r[1] == "ok" else "reject"
             if (r[0] != "ok" or got != c["expect"]) and len(ctx.violations) < 40:
                 ctx.report("corpus case: Check %s, Validate(%s) %s, expected %s: schema %r" % (r[0], c["document"], r[1], c["expect"], c["schema"]), "c04corpus:" + c["schema"] + c["document"], dict(c, implementation=r), case=c["schema"])
-    declared_stream(ctx, rng, 400 if quick else 8000)
+    declared_stream(ctx, rng, 2000 if quick else 8000)
     ctx.extra["schemas"] = len(base)
     ctx.extra["corruptions"] = len(planted)
     ctx.samples.append({"schema": base[3][1]})
